@@ -243,9 +243,14 @@ func (p *Prog) CHAGraph() *callgraph.Graph {
 }
 
 // fname is a stable, human readable name for a function (closures get parent$N).
+var handlerNames = map[*ssa.Function]string{}
+
 func fname(fn *ssa.Function) string {
 	if fn == nil {
 		return "<nil>"
+	}
+	if n, ok := handlerNames[fn]; ok {
+		return n
 	}
 	if fn.Pkg != nil {
 		return fn.RelString(fn.Pkg.Pkg)
